@@ -75,6 +75,9 @@ def run(prop, tier="quick", seed=0, write_baseline=False):
         try:
             ex = Exec(uni, key, con)
             got = ex.verify()
+            for a_ in getattr(ex, "abstracted", []):
+                if a_ not in uni.assumptions:
+                    uni.assumptions.append(a_)          # abstracted loops / statements, listed mechanically
             if not [o for o in got if not o.kind.startswith("cover")]:
                 undecided.append("%s: zero obligations generated" % key)
             obls += got
